@@ -2,6 +2,7 @@
 from lib import core, gen
 
 LEVEL = 'proof'
+BBH_FEATURES = ['segment', 'oracle']      # harness command families this check needs (fallback build, lib/core.py build_bbh)
 GOALS = ['halt', 'blank', 'spin']
 SEGS = [2, 3, 4, 5, 6, 7, 8]
 
